@@ -682,6 +682,16 @@ async fn exec<const N: usize>(st: &mut St<N>, ctx: &mut Ctx, toks: &[&str]) {
                     else if md.len() != *c { problems.push(format!("length-mismatch:{}:{}!={}", p, md.len(), c)); }
                 }
             }
+            // a blob file that was created or written to in this window (also by an operation that failed) is never
+            // removed: it is still in the work directory, or it was moved to the quarantine directory
+            let mut touched: Vec<String> = evs.iter().filter(|e| e.path.ends_with(".blob") && matches!(e.kind, verif_io::Kind::Create | verif_io::Kind::Append))
+                .map(|e| e.path.strip_prefix(&base).unwrap_or(&e.path).trim_start_matches('/').to_string()).collect();
+            touched.sort(); touched.dedup();
+            for p in touched {
+                if !st.dir.join(&p).exists() && !st.dir.join(&st.cfg.corrdir).join(&p).exists() {
+                    problems.push(format!("blob-file-removed:{}", p));
+                }
+            }
             // unknown ends (re-opened file, failed append): from now on the physical length is a lower bound for appends
             let unknown: Vec<String> = st.eof.iter().filter(|(_, v)| v.is_none()).map(|(k, _)| k.clone()).collect();
             for p in unknown {
@@ -693,6 +703,29 @@ async fn exec<const N: usize>(st: &mut St<N>, ctx: &mut Ctx, toks: &[&str]) {
             if *mode == "quiet" && writes > 0 { problems.push(format!("writes-during-queries:{}", writes)); }
             problems.sort();
             ctx.emit(if problems.is_empty() { "tracecheck ok".to_string() } else { format!("tracecheck VIOLATION {}", problems.join(" ")) });
+        }
+        #[cfg(pearl_verif)]
+        ("powercut", []) => {
+            // power loss seen from the blob files: every blob file of the work directory keeps only what a successful
+            // sync covered (its physical length at the entry of the last successful sync, from the I/O tap); index files
+            // are left as they are (the best case for them, the worst case for a blob whose index was written first)
+            let _ = st.take_events();
+            let mut parts = Vec::new();
+            if let Ok(rd) = std::fs::read_dir(&st.dir) {
+                let mut names: Vec<_> = rd.flatten().filter(|e| e.file_name().to_string_lossy().ends_with(".blob")).collect();
+                names.sort_by_key(|e| e.file_name());
+                for e in names {
+                    let p = e.path();
+                    let len = std::fs::metadata(&p).map(|m| m.len()).unwrap_or(0);
+                    let cov = st.synced.get(&p.to_string_lossy().to_string()).copied().unwrap_or(0).min(len);
+                    if cov < len {
+                        let _ = std::fs::OpenOptions::new().write(true).open(&p).and_then(|f| f.set_len(cov));
+                        st.damaged(&p);
+                    }
+                    parts.push(format!("{}:{}->{}", e.file_name().to_string_lossy(), len, cov));
+                }
+            }
+            ctx.emit(format!("powercut {}", parts.join(" ")));
         }
         ("snapcheck", []) => {
             // C07 on bytes: every blob file seen earlier is still there (or in the corrupted dir) with its
